@@ -33,7 +33,7 @@ package callbacks
 
 //@ func checkMissingWhereConditions
 //@   tags C09
-//@   requires where-is-where: has(db.Statement.Clauses, "WHERE") ==> is(db.Statement.Clauses["WHERE"].Expression, clause.Where)
+//@   assumes where-is-where: has(db.Statement.Clauses, "WHERE") ==> is(db.Statement.Clauses["WHERE"].Expression, clause.Where)
 //@   modifies db.Error
 //@   let n = userConds(db.Statement)
 //@   ensures rejects-unconditioned: !db.Config.AllowGlobalUpdate && old(db.Error) == nil && n <= 0 ==> db.Error != nil
@@ -121,3 +121,31 @@ package callbacks
 //@ immutable DB.Statement
 //@   writers gorm.(*DB).Session gorm.(*DB).getInstance gorm.Open gorm.(*DB).Begin gorm.(*DB).*
 //@   tags C13
+
+//@ # ---------- C08: the schema's statement modifiers are applied before the statement is built ----------
+//@ ghost clausesApplied addCalls
+//@ event call gorm.(*Statement).AddClause
+//@   in callbacks.BuildQuerySQL callbacks.Update$1 callbacks.Delete$1
+//@   do addCalls = addCalls + 1
+
+//@ func BuildQuerySQL
+//@   tags C08
+//@   loop "range db.Statement.Schema.QueryClauses" invariant one-call-per-clause: addCalls == old(addCalls) + iter
+//@   loop "range db.Statement.Schema.QueryClauses" exit-do clausesApplied = 1
+
+//@ func Update$1
+//@   tags C08
+//@   loop "range db.Statement.Schema.UpdateClauses" invariant one-call-per-clause: addCalls == old(addCalls) + iter
+//@   loop "range db.Statement.Schema.UpdateClauses" exit-do clausesApplied = 1
+
+//@ func Delete$1
+//@   tags C08
+//@   loop "range db.Statement.Schema.DeleteClauses" invariant one-call-per-clause: addCalls == old(addCalls) + iter
+//@   loop "range db.Statement.Schema.DeleteClauses" exit-do clausesApplied = 1
+
+//@ site modifiers-before-build
+//@   match call gorm.(*Statement).Build
+//@   in callbacks.BuildQuerySQL callbacks.Update$1 callbacks.Delete$1
+//@   min-sites 3
+//@   entry clausesApplied == 0
+//@   assert schema-modifiers-applied: old(db.Statement.Schema) == nil || clausesApplied == 1 [C08]
